@@ -257,6 +257,7 @@ var c17KeysByArity = func() map[int][]string {
 
 func c17Check(d MsgD) *pbt.Violation {
 	m := d.build()
+	noiseChat()
 	// ---- JSON
 	js, err := json.Marshal(m)
 	if err != nil {
@@ -287,6 +288,7 @@ func c17Check(d MsgD) *pbt.Violation {
 	// ---- NBT
 	var nb bytes.Buffer
 	var wn int64
+	noiseChat()
 	if pv, stack := pbt.Try(func() { wn, err = m.WriteTo(&nb) }); pv != nil {
 		return pbt.V(pbt.PanicKey("c17.nbt.encode", stack), "no panic", "Message.WriteTo panicked: %v\n%s", pv, stack)
 	}
@@ -317,6 +319,7 @@ func c17Check(d MsgD) *pbt.Violation {
 	if pv, stack := pbt.Try(func() { rnn, err = mn.ReadFrom(rd) }); pv != nil {
 		return pbt.V(pbt.PanicKey("c17.nbt.decode", stack), "no panic", "Message.ReadFrom panicked: %v\n%s", pv, stack)
 	}
+	noiseChat()
 	if err != nil {
 		return pbt.V("c17.nbt.decode", "decoding from the NBT form", "Message.ReadFrom: %v\n tree %s", err, tree)
 	}
